@@ -303,7 +303,7 @@ def run(ctx):
     ctx.assumptions += ["tolerance 2^-30 relative + 2^-30*scale absolute (2^-18 for num_grad) absorbs the implementation's rounding",
                         "autograd / numdifftools derivatives of user functions are oracles"]
     okp, _, _ = ctx.copy_props()
-    common.tie_pycore(ctx, ["Tie_merge.v"])
+    common.tie_pycore(ctx, ["Tie_merge.v", "Tie_scalef.v"])
     n = 300 if ctx.tier == "quick" else 3000
     cases = gen_cases(ctx, pe, n)
     bad_model, bad_spec = [], []
